@@ -41,7 +41,10 @@ TraceEval ==
     /\ LET e == Rec[l] IN
        /\ Judge(AllFinite(e.c) /\ IsFinite(e.x), "harness: non-finite input")
        /\ IF e.form \in { "poly", "polyn" }
-          THEN Judge(PolyOK(e), "polynomial value outside the C01 bound")
+          THEN /\ Judge(PolyOK(e), "polynomial value outside the C01 bound")
+               \* shape: the value is what the scheme of src/poly.rs computes, operation by operation
+               /\ Drift(~IsFinite(e.y) \/ LET m == IF e.form = "poly" THEN FP!Estrin(e.c, e.x) ELSE FP!HornerFma(e.c, e.x) IN
+                                          m = e.y \/ (IsZero(m) /\ IsZero(e.y)), "evaluation scheme")
           ELSE Judge(BRGt(Val(e.x), BRZero), "harness: v <= 0") /\ Judge(LogOK(e), "log-polynomial value outside the C01 bound")
 
 TraceNext == TraceEval
